@@ -659,7 +659,7 @@ def main(args=None):
         # Use Imx93 Architecture by default(args.config is None)
         if args.config is None and args.system_config == args.memory_mode == ArchitectureFeatures.DEFAULT_CONFIG:
              arch = Imx93ArchitectureFeatures(
-                vela_config_files=args.config,
+                vela_config_files=config_files,
                 system_config=ArchitectureFeatures.DEFAULT_CONFIG,
                 memory_mode=ArchitectureFeatures.DEFAULT_CONFIG,
                 accelerator_config=args.accelerator_config,
@@ -675,7 +675,7 @@ def main(args=None):
                 print(f"Warning: Using {ArchitectureFeatures.DEFAULT_CONFIG} values for memory mode")
 
             arch = architecture_features.ArchitectureFeatures(
-                vela_config_files=args.config,
+                vela_config_files=config_files,
                 system_config=args.system_config,
                 memory_mode=args.memory_mode,
                 accelerator_config=args.accelerator_config,
